@@ -114,7 +114,16 @@ pub fn vbincode_deserialize<T: VSerde, S: VRead>(s: &mut S, limit: Option<u64>, 
         old(s).pos() <= final(s).pos() <= old(s).pos() + smin(limit->Some_0 as int, srem(old(s)) as int),
         r is Ok ==> r->Ok_0.fits(limit->Some_0) && old(s).data().subrange(old(s).pos() as int, final(s).pos() as int) == r->Ok_0.enc(),
         r is Ok ==> r->Ok_0 == bincode_dec::<T>(old(s).data(), old(s).pos()),
+        // completeness: the decoder refuses only if the source fails, the bytes are not the encoding of a T, the encoding is longer
+        // than the limit it was given, or the source ends before it
+        (final(s).nerr() == old(s).nerr() && bincode_ok::<T>(old(s).data(), old(s).pos())
+            && bincode_len::<T>(old(s).data(), old(s).pos()) <= limit->Some_0
+            && bincode_len::<T>(old(s).data(), old(s).pos()) <= srem(old(s))) ==> r is Ok,
+        final(s).nerr() >= old(s).nerr(),
 { unimplemented!() }
+/// the bytes at `pos` are the (fixint) bincode encoding of a T / the length of that encoding
+pub uninterp spec fn bincode_ok<T>(data: Seq<u8>, pos: nat) -> bool;
+pub uninterp spec fn bincode_len<T>(data: Seq<u8>, pos: nat) -> nat;
 
 /// Vec<u8> == &[u8; N] comparison
 #[verifier::external_body]
